@@ -468,6 +468,10 @@ func (ev *Env) equal(a, b Val) string {
 			cs = append(cs, "(seqeq "+a.L[i]+" "+b.L[i]+")")
 			continue
 		}
+		if a.sort(i) == "BList" && a.L[i] != b.L[i] {
+			cs = append(cs, "(listeq "+a.L[i]+" "+b.L[i]+")")
+			continue
+		}
 		cs = append(cs, eq(a.L[i], b.L[i]))
 	}
 	return and(cs...)
@@ -732,7 +736,7 @@ func (ev *Env) call(x *ast.CallExpr) Val {
 		r := ev.fx.freshName("q_r")
 		ev.fx.bound = append(ev.fx.bound, r)
 		defer func() { ev.fx.bound = ev.fx.bound[:len(ev.fx.bound)-1] }()
-		hyp := []string{"(<= 0 " + r + ")", "(< " + r + " " + ev.pre.get(ev.fx, "G|alloc") + ")"}
+		hyp := []string{"(< 0 " + r + ")", "(< " + r + " " + ev.pre.get(ev.fx, "G|alloc") + ")"}
 		for _, v := range vs {
 			hyp = append(hyp, not(eq(r, v.L[0])))
 		}
